@@ -37,6 +37,34 @@ templ ctwice() {
 	<t>{ children... }|{ children... }</t>
 }
 
+templ cslotArg(s string) {
+	<s data-a={ s }>{ children... }</s>
+}
+
+// top-level components served by templ.Handler in the handler histories
+templ hSlotTop() {
+	@cslot()
+}
+
+templ hWithBlock() {
+	@cslot() {
+		hb
+	}
+}
+
+templ hCancelMid(cancel func() string) {
+	@cslotArg(cancel()) {
+		secret
+	}
+}
+
+templ hFailMid() {
+	@cslot() {
+		before
+		@failingC()
+	}
+}
+
 templ cwrap() {
 	<w>
 		@cslot() {
@@ -50,9 +78,15 @@ const goLibrary = `package main
 
 import (
 	"context"
+	"errors"
+	"fmt"
 	"io"
+	"net/http/httptest"
+	"strconv"
+	"strings"
 
 	"github.com/a-h/templ"
+	"verif/tgen/rt"
 )
 
 var onceH = templ.NewOnceHandle()
@@ -62,6 +96,73 @@ func fnIgnore() templ.Component {
 	return templ.ComponentFunc(func(ctx context.Context, w io.Writer) error {
 		_, err := io.WriteString(w, "<f></f>")
 		return err
+	})
+}
+
+func failingC() templ.Component {
+	return templ.ComponentFunc(func(ctx context.Context, w io.Writer) error { return errors.New("boom") })
+}
+
+// HandlerHistories serves every sequence of up to 3 requests over 4 request kinds through templ.Handler
+// (one process, so anything pooled or cached between requests is shared) and reports the first response
+// that differs from what the request renders alone.
+func HandlerHistories(a *rt.A) templ.Component {
+	return templ.ComponentFunc(func(_ context.Context, w io.Writer) error {
+		kinds := []string{"slot-top", "with-block", "cancel-mid", "fail-mid"}
+		serve := func(kind string) string {
+			ctx, cancel := context.WithCancel(context.Background())
+			defer cancel()
+			var c templ.Component
+			switch kind {
+			case "slot-top":
+				c = hSlotTop()
+			case "with-block":
+				c = hWithBlock()
+			case "cancel-mid":
+				c = hCancelMid(func() string { cancel(); return "x" })
+			case "fail-mid":
+				c = hFailMid()
+			}
+			rec := httptest.NewRecorder()
+			templ.Handler(c).ServeHTTP(rec, httptest.NewRequest("GET", "/", nil).WithContext(ctx))
+			return strconv.Itoa(rec.Code) + ":" + strings.Join(strings.Fields(rec.Body.String()), "")
+		}
+		alone := map[string]string{}
+		for _, k := range kinds {
+			alone[k] = serve(k)
+		}
+		// references computed first, in a fresh state? They are taken again at the end and must not have changed.
+		n := 0
+		var rec func(seq []string) string
+		rec = func(seq []string) string {
+			if len(seq) > 0 {
+				n++
+				for i, k := range seq {
+					if got := serve(k); got != alone[k] {
+						return fmt.Sprintf("MISMATCH request %d (%s) of %v got %s, alone it gets %s", i, k, seq, got, alone[k])
+					}
+				}
+			}
+			if len(seq) == 3 {
+				return ""
+			}
+			for _, k := range kinds {
+				if m := rec(append(append([]string{}, seq...), k)); m != "" {
+					return m
+				}
+			}
+			return ""
+		}
+		if m := rec(nil); m != "" {
+			io.WriteString(w, m)
+			return nil
+		}
+		if alone["slot-top"] != "200:<s></s>" || alone["with-block"] != "200:<s>hb</s>" {
+			io.WriteString(w, "MISMATCH reference responses "+alone["slot-top"]+" "+alone["with-block"])
+			return nil
+		}
+		fmt.Fprintf(w, "ok %d sequences", n)
+		return nil
 	})
 }
 
@@ -406,6 +507,10 @@ func main() {
 					n = 0
 				}
 			}
+			if b == 0 {
+				bt.Names = append(bt.Names, "HandlerHistories")
+				jobs = append(jobs, rt.Job{T: "HandlerHistories", FailAt: -1})
+			}
 			for i := b; i < len(progs); i += nb {
 				sb.WriteString(progs[i].src() + "\n")
 				bt.Names = append(bt.Names, progs[i].name)
@@ -436,6 +541,7 @@ func main() {
 		byName[p.name] = p
 	}
 	renders, withBlocks := 0, 0
+	handlerHist := ""
 	strip := func(s string) string { return strings.Join(strings.Fields(s), "") }
 	for b := range out {
 		if out[b].err != "" {
@@ -444,6 +550,13 @@ func main() {
 		}
 		for _, r := range out[b].r {
 			renders++
+			if r.T == "HandlerHistories" {
+				handlerHist = r.HTML
+				if !strings.HasPrefix(r.HTML, "ok ") || r.Err != "" || r.Panic != "" {
+					run.Violation("children-leak-between-handler-requests", "request sequences through templ.Handler: "+r.HTML+" "+r.Err+" "+r.Panic, map[string]any{"report": r.HTML})
+				}
+				continue
+			}
 			p := byName[r.T]
 			done := false
 			want := render(p.body, &done)
@@ -469,6 +582,7 @@ func main() {
 	run.Cov["renders"] = renders
 	run.Cov["callee_kinds"] = kinds
 	run.Cov["programs_with_block_text"] = withBlocks
+	run.Cov["handler_request_histories"] = handlerHist
 	run.Sample(map[string]any{"calls": progs[len(progs)/2].desc(), "source": progs[len(progs)/2].src()})
 	run.Sample(map[string]any{"calls": progs[77].desc(), "source": progs[77].src()})
 	run.Assumption("expected semantics are lexical: a component sees the block of its own call site or nothing; templ.Join's arguments are called by Join without blocks; a once handle renders the block of its first use only")
